@@ -62,6 +62,18 @@ def s_cse_variants(rng, nval):
         ["s", ["c", ">", ["v", "a"], ["n", k]], ["n", 1]],
         ["s", ["c", ">=", ["v", "a"], ["n", k]], ["v", "b"]],
     ]
+    # chains over the same comparisons that differ only in the combine mode (and / or) or in one row
+    c1 = ["c", ">", ["v", "a"], ["n", k]]
+    c2 = ["c", rng.choice(["<", ">", "!="]), ["v", "b"], ["n", rng.randint(0, 9)]]
+    c3 = ["c", "<=", ["v", "a"], ["n", k + 3]]
+    chain_items = [
+        ["s", ["&&", c1, c2], ["n", 1]], ["s", ["||", c1, c2], ["n", 1]],
+        ["p", ["&&", c1, c2], t1], ["p", ["||", c1, c2], t1],
+        ["s", ["&&", ["&&", c1, c2], c3], ["v", "b"]], ["s", ["||", ["||", c1, c2], c3], ["v", "b"]],
+        ["s", ["&&", c2, c1], ["n", 1]],
+    ]
+    import copy as _copy
+    items += [_copy.deepcopy(x) for x in rng.sample(chain_items, k=rng.randint(2, 5))]
     rng.shuffle(items)
     for i, e in enumerate(items[: rng.randint(5, len(items))]):
         prog.append(["sig", "x%d" % i, e])
